@@ -53,7 +53,9 @@ RULE_ADDED = (
               "inate (the library's generator asked again until it yields one); tool runs with "
               'terminal / locale variables exported. '
               ' '
-              'Round 15: images read through an anonymous pipe (hash, message). ')
+              'Round 15: images read through an anonymous pipe (hash, message). '
+              ' '
+              'Round 16: signing runs over longer files left by an earlier run. ')
 RULE = RULE + " " + RULE_ADDED.strip()
 ASSUMPTIONS = [
     "own Intel-HEX writer (pv/gen/ihex.py); areas do not overlap",
@@ -393,9 +395,17 @@ def run_case_(acc, cseed, tmpdir, state):
         blank_entries(acc, rng, images, tmpdir, case, signonetime)
     # ---- one-time signing
     pubp = os.path.join(tmpdir, "pub.txt")
+    stale = rng.random() < 0.3
     for f in [pubp] + [im[0] + ".sig" for im in images]:
-        if os.path.exists(f):
+        if os.path.lexists(f):
             os.unlink(f)
+        if stale:
+            # the directory holds the output of an earlier run (another key, files longer
+            # than the ones about to be written): what this run leaves is its own output
+            with open(f, "w") as f_:
+                f_.write(rng.randbytes(rng.choice([40, 100, 150, 300])).hex() + "\n")
+    if stale:
+        acc.count("signing_runs_over_longer_files_of_an_earlier_run")
     generated = []
     orig_generate = ecdsa.SigningKey.generate
 
@@ -440,7 +450,8 @@ def run_case_(acc, cseed, tmpdir, state):
     want_files = sorted([os.path.realpath(pubp)] +
                         [os.path.realpath(im[0] + ".sig") for im in images])
     new_files = sorted(os.path.realpath(f_) for f_ in tree(tmpdir) - before)
-    if written != want_files or sorted(set(new_files) | set()) != want_files:
+    if written != want_files or (not stale and sorted(set(new_files) | set()) != want_files) \
+            or (stale and new_files):
         acc.violation("signonetime-wrote-other-files",
                       {"opened_for_writing": written, "new": new_files, "want": want_files},
                       case)
